@@ -597,6 +597,17 @@ func cloneDesc(d *DescSpec) *DescSpec {
 }
 
 func Mutate(r *rand.Rand, name string, prev *DescSpec, others []*DescSpec) *DescSpec {
+	return MutateWith(SvcNames)(r, name, prev, others)
+}
+
+// MutateWith is Mutate over a given pool of service names (a small pool makes targets collide often).
+func MutateWith(SvcNames []string) func(r *rand.Rand, name string, prev *DescSpec, others []*DescSpec) *DescSpec {
+	return func(r *rand.Rand, name string, prev *DescSpec, others []*DescSpec) *DescSpec {
+		return mutate(r, SvcNames, name, prev, others)
+	}
+}
+
+func mutate(r *rand.Rand, SvcNames []string, name string, prev *DescSpec, others []*DescSpec) *DescSpec {
 	if prev == nil || r.Intn(6) == 0 {
 		genStats["desc:fresh"]++
 		d := &DescSpec{Name: name}
@@ -664,11 +675,21 @@ func Mutate(r *rand.Rand, name string, prev *DescSpec, others []*DescSpec) *Desc
 	return d
 }
 
-// GenHistory produces a history of n ops over the targets.
-func GenHistory(r *rand.Rand, n int, mut func(r *rand.Rand, name string, prev *DescSpec, others []*DescSpec) *DescSpec) []Op {
+// GenHistory produces a history of n ops over the targets. With churn the targets are closed and
+// re-watched much more often (stale bookkeeping left behind by Close shows only after a re-watch).
+func GenHistory(r *rand.Rand, n int, churn bool, mut func(r *rand.Rand, name string, prev *DescSpec, others []*DescSpec) *DescSpec) []Op {
+	TargetNames := TargetNames
+	if churn {
+		TargetNames = TargetNames[:2]
+	}
 	var ops []Op
 	watched := map[string]bool{}
 	last := map[string]*DescSpec{}
+	closeBelow := 5
+	if churn {
+		closeBelow = 8
+		genStats["history:churn"]++
+	}
 	for len(ops) < n {
 		name := common.Pick(r, TargetNames)
 		switch k := r.Intn(20); {
@@ -678,14 +699,14 @@ func GenHistory(r *rand.Rand, n int, mut func(r *rand.Rand, name string, prev *D
 			}
 			ops = append(ops, Op{Kind: 'w', Name: name})
 			watched[name] = true
-		case k < 5: // close (rarely without a live watcher)
+		case k < closeBelow: // close (rarely without a live watcher)
 			if !watched[name] && r.Intn(6) != 0 {
 				continue
 			}
 			ops = append(ops, Op{Kind: 'c', Name: name})
 			watched[name] = false
 			delete(last, name)
-		case k == 5: // update through the wrong watcher / of a closed watcher
+		case k == closeBelow: // update through the wrong watcher / of a closed watcher
 			var others []*DescSpec
 			for _, o := range TargetNames {
 				if o != name {
@@ -802,7 +823,11 @@ func (Area) Gen(r *rand.Rand, tier string, emit func(string)) {
 		if r.Intn(10) == 0 { // one target without a pooled connection
 			l.Pool = []string{"a", "b", "c"}[:2]
 		}
-		l.Ops = GenHistory(r, 2+r.Intn(maxOps-1), Mutate)
+		if i%3 == 2 { // churn: two targets, two services, frequent close / re-watch
+			l.Ops = GenHistory(r, 2+r.Intn(maxOps-1), true, MutateWith(SvcNames[:2]))
+		} else {
+			l.Ops = GenHistory(r, 2+r.Intn(maxOps-1), false, Mutate)
+		}
 		emit(l.String())
 	}
 }
